@@ -295,6 +295,16 @@ def run1 (tbl : ClassTable) (P : HashParams) : World1 → List Op1 → World1 ×
     let rs := run1 tbl P r.1 ops
     (rs.1, r.2 :: rs.2)
 
+/-- histories in an interpreter with `__debug__ = debug` (`python -O`: false): the same operations
+on the class table of that mode (`ClassTable.inMode`) -/
+def step1D (src : C01FrozenSource) (debug : Bool) (tbl : ClassTable) (P : HashParams) (w : World1)
+    (op : Op1) : World1 × Out1 :=
+  step1 (tbl.inMode src debug) P w op
+
+def run1D (src : C01FrozenSource) (debug : Bool) (tbl : ClassTable) (P : HashParams) (w : World1)
+    (ops : List Op1) : World1 × List Out1 :=
+  run1 (tbl.inMode src debug) P w ops
+
 /-- did this operation rebind a field of an object? -/
 def Out1.rebound : Out1 → Bool
   | .attrSet true _ => true
